@@ -231,6 +231,10 @@ func (w *ammWorld) hook(op, class string, f func()) {
 		}
 	}
 	w.out.Emit(fmt.Sprintf("chk c18.recipients tag=%s.recipients %s %d %d%s %s", class, class, lock, nch, sb.String(), pre), "true", "chk.recipients", false)
+	if class == "epoch" {
+		// whatever left a bucket reached a wallet or the asset's pool (both modes)
+		w.out.Emit("chk c18.l1flow tag=epoch.flow "+pre+" || "+w.dump(), "true", "chk.l1flow", nch > 0)
+	}
 	// epoch hook in wallet mode, no blocked recipient in this world: every eligible provider got its share
 	if class == "epoch" && len(w.blocked) == 0 && w.app.ClpKeeper.GetRewardsParams(w.ctx).RewardsDistribute {
 		w.out.Emit(fmt.Sprintf("chk c18.l1bucket tag=epoch.bucket %d %d%s %s", lock, nch, sb.String(), pre), "true", "chk.l1bucket", nch > 0)
@@ -1003,6 +1007,26 @@ func init() {
 			w.setHeight(9)
 			w.opAdd(w.users[3], "cusdc", e18(1), e18(1)) // refreshed: inside the lock period at the epoch end
 			w.setHeight(15)
+			w.opEpoch()
+		}
+		// D13: pool-mode epoch on a pool whose native side an LPPD run at block rate 1 has emptied (two equal
+		// providers, even balance): CalculatePoolUnits refuses the re-investment — the bucket must stay intact —
+		// then wallet mode pays it out
+		{
+			w := newAmmWorld(rng, out, 3, -1)
+			w.fundAll()
+			w.setDistribute(false)
+			w.opCreate(w.users[0], "ceth", e18(1000), e18(1000))
+			w.opAdd(w.users[1], "ceth", e18(1000), e18(1000))
+			w.opBucket(w.users[2], "ceth", e18(600))
+			w.setLock(0)
+			w.setHeight(10)
+			w.app.ClpKeeper.SetProviderDistributionParams(w.ctx, &clptypes.ProviderDistributionParams{DistributionPeriods: []*clptypes.ProviderDistributionPeriod{{DistributionPeriodBlockRate: sdk.OneDec(), DistributionPeriodStartBlock: 10, DistributionPeriodEndBlock: 10, DistributionPeriodMod: 1}}})
+			w.cfg("lppd 10 10 1000000000000000000 1")
+			w.opEndBlock()
+			w.opEpoch()
+			w.setDistribute(true)
+			w.setHeight(13)
 			w.opEpoch()
 		}
 		// D12: decommission of a pool with more providers than any page size a reader might assume (205): every
